@@ -1,8 +1,8 @@
 #!/bin/bash
 # verify_seed_py.sh <prop> <i> : as verify_seed.sh for demos written in Python against the compiled extension.
 set -u
-P=$1; I=$2
-SRC=/tmp/mut/$P/out
+P=$1; I=$2; BASE=${3:-/tmp/mut}; OUT=${4:-$I}
+SRC=$BASE/$P/out
 WT=/tmp/mut/verify_$P
 export CARGO_NET_OFFLINE=true
 export CARGO_TARGET_DIR=/tmp/mut/verify_target_$P
@@ -18,7 +18,7 @@ cargo test --workspace --no-fail-fast --offline >/tmp/mut/v_${P}_${I}_suite.log 
 git checkout -q -- . && git clean -fdq
 echo "$P-$I: demo_clean_rc=$clean_rc demo_mut_rc=$mut_rc suite_rc=$suite_rc"
 if [ $clean_rc -eq 0 ] && [ $mut_rc -ne 0 ] && [ $suite_rc -eq 0 ]; then
-  D=/verif/seeded/$P-$I; mkdir -p $D
+  D=/verif/seeded/$P-$OUT; mkdir -p $D
   cp $SRC/patch$I.diff $D/patch.diff; cp $SRC/demo$I.py $D/demo.py
   python3 - <<PY
 import json
